@@ -214,6 +214,21 @@ class Store:
         self.log("get_size", path=p)
         return SInt(z3.Length(z3.Select(self.ct, p)))
 
+    def a_read_json(self, I, obj, a, k):
+        raw = self.a_read_file(I, obj, a, k)
+        dec = I.call_method(raw, "decode", ["utf-8"], {})
+        h = I.reg.modfuncs.get("json.loads")
+        if h is None:
+            raise Unsupported("storage.read_json without a json theory")
+        return h(I, [dec], {})
+
+    def a_write_json(self, I, obj, a, k):
+        h = I.reg.modfuncs.get("json.dumps")
+        if h is None:
+            raise Unsupported("storage.write_json without a json theory")
+        txt = h(I, [a[1]], {"indent": 2})
+        return self.a_write_file(I, obj, [a[0], I.call_method(txt, "encode", ["utf-8"], {})], {})
+
     def a_makedirs(self, I, obj, a, k):
         self.log("makedirs", path=a[0])
         return None
@@ -238,7 +253,7 @@ class Store:
     def install(self, reg):
         T = reg.theory_methods
         for name in ("exists", "read_file", "read_file_with_etag", "write_file", "write_file_cas", "delete_file",
-                     "get_modified_time", "get_size", "makedirs", "list_files"):
+                     "get_modified_time", "get_size", "makedirs", "list_files", "read_json", "write_json"):
             T[("storage", name)] = self._dispatch(name)
         reg.theory_attrs[("storage", "supports_cas")] = lambda I, o: o.fields["store"].cas
         reg.theory_attrs[("storage", "atomic_write_failures")] = lambda I, o: o.fields["store"].atomic
